@@ -370,7 +370,6 @@ class Ctx(object):
         if isinstance(cond, SB):
             if not self.sym:
                 raise TypeError('symbolic condition in concrete mode')
-            self.records.append((label, []))
             self._oblige(label, [T.not_(cond.t)], [cond.t], [T.boolc(True)], None, ineq=True)
         else:
             self.fact(label, cond)
